@@ -558,8 +558,9 @@ def mk1(name, uni, init, H, div, nc, cap, items, outcap=2, fbcap=2, **kw):
 
 
 def v1_rmvshare():
-    c = mk1("v1rmvshare", [3, 2, 1], {3: 1, 2: 2, 1: 3}, 8, "rate", 3, 4, 60, outcap=1, fbcap=4, rmvs=[1], extra=dict(stall=True, pressure_after_remove=True, eager_release=True))
-    c["items"]["3"] = 2
+    c = mk1("v1rmvshare", [3, 2, 1], {3: 1, 2: 2, 1: 3}, 8, "rate", 3, 4, 60, outcap=1, fbcap=4, rmvs=[1], extra=dict(stall=True, pressure_after_remove=True, eager_release=True, quiet_until_remove=True))
+    c["items"]["3"] = 1
+    c["runs_factor"] = 4
     return c
 
 
@@ -649,6 +650,7 @@ def record_v1(binary, sc, cfg, runs, timeout=900, only=0):
     os.makedirs(sub, exist_ok=True)
     cfgp = os.path.join(sub, "cfg.json")
     json.dump(cfg, open(cfgp, "w"))
+    runs = int(runs) * int(cfg.get("runs_factor", 1))     # rare scenarios get more schedules (they are cheap)
     rc, out, wall = run_test(binary, "TestRecordV1$", env=dict(CFG=cfgp, OUT_DIR=sub, V1_RUNS=runs, ONLY_RUN=only), timeout=timeout)
     spin = None
     if rc == 3:
